@@ -217,7 +217,9 @@ pub struct SrcCore {
     pub served_err: [u64; 4],
     pub eof_served: u64,
     pub wakers_seen: u64,
-    /// a fatal (non-retryable) error served at this call number, if any (blocking class)
+    /// blocking class only: non-`Interrupted` errors in the lane are served as fatal errors
+    pub allow_fatal: bool,
+    pub fatal_served: Option<ErrKind>,
     pub obs: Rc<RefCell<Obs>>,
 }
 
@@ -235,6 +237,8 @@ impl SrcCore {
             served_err: [0; 4],
             eof_served: 0,
             wakers_seen: 0,
+            allow_fatal: false,
+            fatal_served: None,
             obs,
         }))
     }
@@ -271,9 +275,13 @@ impl SrcCore {
                 }
                 None
             }
-            Step::Err(k) if is_async || k == ErrKind::Interrupted => {
+            Step::Err(k) if is_async || k == ErrKind::Interrupted || self.allow_fatal => {
                 obs.event(ev::ERR + k.idx() as u8, self.pos as u64);
                 self.served_err[k.idx()] += 1;
+                if !is_async && k != ErrKind::Interrupted {
+                    self.fatal_served = Some(k);
+                    obs.fault(fk::fatal_err_read);
+                }
                 if k == ErrKind::Interrupted {
                     obs.fault(fk::eintr_read);
                     match phase {
@@ -404,6 +412,8 @@ pub struct SinkCore {
     pub zero_served: u64,
     pub full_served: u64,
     pub empty_offers: u64,
+    pub allow_fatal: bool,
+    pub fatal_served: Option<ErrKind>,
     /// expected frame layout of what is being written (set by the interpreter for probes)
     pub layout: Layout,
     pub obs: Rc<RefCell<Obs>>,
@@ -426,6 +436,8 @@ impl SinkCore {
             zero_served: 0,
             full_served: 0,
             empty_offers: 0,
+            allow_fatal: false,
+            fatal_served: None,
             layout: Layout::default(),
             obs,
         }))
@@ -469,9 +481,13 @@ impl SinkCore {
                 }
                 None
             }
-            Step::Err(k) if is_async || k == ErrKind::Interrupted => {
+            Step::Err(k) if is_async || k == ErrKind::Interrupted || self.allow_fatal => {
                 obs.event(ev::ERR + k.idx() as u8, self.data.len() as u64);
                 self.served_err[k.idx()] += 1;
+                if !is_async && k != ErrKind::Interrupted {
+                    self.fatal_served = Some(k);
+                    obs.fault(fk::fatal_err_write);
+                }
                 if k == ErrKind::Interrupted {
                     obs.fault(fk::eintr_write)
                 }
